@@ -1,6 +1,8 @@
 """C15 — concurrent requests on one engine do not influence each other.
 R1: R1_Multi (TLC, MC_multi).  R2: every interleaving TLC prints is driven through one
-real engine with all requests in flight."""
+real engine with all requests in flight.  R3: groups of requests over different documents,
+started at different moments under random interleavings, are recorded from the engine and
+validated by TLC against a product of independent scheduler specifications (Trace_multi)."""
 import common, genrun, tlc, render
 from execworld import World
 import execreplay
@@ -9,6 +11,9 @@ QUICK = ["MC_multi_vars.cfg", "MC_multi_nested.cfg", "MC_multi_ops.cfg", "MC_mul
 
 
 def job(j):
+    if j.get("r3"):
+        import multitrace
+        return multitrace.job(j)
     cfg = j["cfg"]
     st = {"world": None, "n": 0, "viol": [], "distinct": set(), "samples": [], "dev": 0}
 
@@ -43,8 +48,17 @@ def main(argv):
                 "interleaving of all their resolver completions); distinct_nontrivial = distinct cases whose interleaving switches "
                 "between requests at least twice")
     rep.assumptions = ["stand-in parser", "requests share one engine, one parsed (cached) document and one event loop",
-                       "each request is also re-run alone afterwards on the same engine and compared with the same prediction"]
-    results = genrun.run_jobs("checks.c15", "job", [{"cfg": c} for c in QUICK])
+                       "each request is also re-run alone afterwards on the same engine and compared with the same prediction",
+                       "R3 traces: the harness logs, after every start / release, the suspended resolvers of every request in flight (controlled event loop, gated resolvers)"]
+    thorough = common.tier() == "thorough"
+    jobs = [{"cfg": c} for c in QUICK]
+    # R3: random groups of 2-4 requests over different documents (simulation-drawn, with failures), random start moments and
+    # interleavings, recorded from the engine and validated by TLC against a product of independent scheduler specifications
+    for k in range(8 if thorough else 3):
+        jobs.append({"r3": True, "seed": common.seed() * 1000 + 700 + k, "behaviours": 4000, "max_cases": 150 if thorough else 60,
+                     "groups": 600 if thorough else 150,
+                     "simcfg": "MC_faults_simf.cfg" if k % 2 == 0 else "MC_faults_sim.cfg"})
+    results = genrun.run_jobs("checks.c15", "job", jobs)
     bad = genrun.merge(rep, results)
     rc = rep.finish()
     if bad:
